@@ -15,6 +15,12 @@ coqc (vm_compute) through KVSMRun.kcase.  Monitors (python, on what the implemen
                   statemachine contracts) never panics, never takes the process down, and returns a value that the state
                   before the call, after the call, or after a prefix of the Update batch justifies (during a restore or a
                   Close also: an error)
+  (snapshot, with SEVERAL outstanding contexts / images per machine: each image, whichever context it was saved from and
+   whenever, installed into a fresh or an older replica, must give the state at ITS prepare point; model: [sop]/[scase])
+  (hash-nonupdate, DiskKVTest exactly as NewDiskKVTest returns it, i.e. the harness-only knob disableSnapshotAbort NOT
+   set: thousands of GetHash calls, on stores of 0..20 records, must neither fail nor vary; SaveSnapshot may answer
+   ErrSnapshotAborted there - the executor retries with a spare context of the same point - and the image finally
+   produced must be exact)
 Hash VALUES are never compared with the model, only the equality pattern inside a case.
 
 Dimensions varied besides the op interleaving: string content (empty / JSON-special / multi-byte / invalid UTF-8),
@@ -161,16 +167,31 @@ def valid(s):
 
 
 # ------------------------------------------------------------------ cases
+def slot_of(o):
+    """context / image slot of a P, V, R op (0 = the only slot of the older scripts)"""
+    if o[0] in ("P", "V"):
+        return o[2] if len(o) > 2 else 0
+    if o[0] == "R":
+        return o[4] if len(o) > 4 else 0
+    return 0
+
+
 class Case:
     """ops: ("U", r, [(idx,k,v,cmd)...]) ("L", r, key) ("S", r) ("P", r) ("V", r) ("R", r, src) ("O", r) ("H", r) ("D", r)
-    ("C", r, nthr, [key...], op): op (of replica r) runs while nthr goroutines look the keys up on replica r"""
-    def __init__(self, kind, nrep, keys, ops, origin, expect_panic=False):
+    ("C", r, nthr, [key...], op): op (of replica r) runs while nthr goroutines look the keys up on replica r
+    slots (several outstanding contexts / images per replica): ("P", r, slot) ("V", r, slot) ("R", r, src, chunk, slot);
+    ("H", r, n): n GetHash calls.  raw: DiskKVTest exactly as NewDiskKVTest returns it (snapshot-abort injection live)"""
+    def __init__(self, kind, nrep, keys, ops, origin, expect_panic=False, raw=False):
         self.kind, self.nrep, self.keys, self.ops, self.origin = kind, nrep, list(keys), ops, origin
         self.expect_panic = expect_panic
+        self.raw = raw and kind == "disk"
         self.cid = None
 
+    def uses_slots(self):
+        return any(slot_of(o[4] if o[0] == "C" else o) for o in self.ops)
+
     def lines(self):
-        out = ["CASE %d %s %d" % (self.cid, self.kind, self.nrep), "K " + " ".join(hx(k) for k in self.keys)]
+        out = ["CASE %d %s %d%s" % (self.cid, self.kind, self.nrep, " raw" if self.raw else ""), "K " + " ".join(hx(k) for k in self.keys)]
         for o in self.ops:
             out.append(self._line(o))
         out.append("END")
@@ -182,8 +203,13 @@ class Case:
             return "U %d " % o[1] + " ".join("%d %s" % (e[0], hx(e[3])) for e in o[2])
         if o[0] == "L":
             return "L %d %s" % (o[1], hx(o[2]))
+        sl = " @%d" % slot_of(o) if slot_of(o) else ""
         if o[0] == "R":
-            return "R %d %d" % (o[1], o[2]) + (" %d" % o[3] if len(o) > 3 and o[3] else "")
+            return "R %d %d" % (o[1], o[2]) + (" %d" % o[3] if len(o) > 3 and o[3] else "") + sl
+        if o[0] == "H" and len(o) > 2:
+            return "H %d %d" % (o[1], o[2])
+        if o[0] in ("P", "V"):
+            return "%s %d%s" % (o[0], o[1], sl)
         if o[0] == "C":
             return "C %d %d %d %s %s" % (o[1], o[2], len(o[3]), " ".join(hx(k) for k in o[3]), Case._line(o[4]))
         return "%s %d" % (o[0], o[1])
@@ -195,6 +221,7 @@ class Case:
         cut = any(len(l) > 600 for l in lines)
         ops = [self._op_text(o) for o in self.ops]
         return {"kind": self.kind, "machine": KIND_NAME[self.kind], "replicas": self.nrep, "origin": self.origin,
+                "machine_setup": "as returned by NewDiskKVTest + SetTestFS (snapshot abort injection NOT disabled)" if self.raw else "harness default",
                 "ops": ops, "executor_input": [l if len(l) <= 600 else l[:300] + "...[%d chars]" % len(l) for l in lines],
                 "executor_input_cut": cut}
 
@@ -210,9 +237,16 @@ class Case:
         if o[0] == "C":
             return "%s  || concurrently %d goroutines looping Lookup r%d of %s" % (
                 Case._op_text(o[4]), o[2], o[1], ", ".join(pyx(k) for k in o[3]))
+        sl = slot_of(o)
         if o[0] == "R":
-            return "RecoverFromSnapshot r%d <- snapshot of r%d" % (o[1], o[2]) + (
+            return "RecoverFromSnapshot r%d <- snapshot%s of r%d" % (o[1], " #%d" % sl if sl else "", o[2]) + (
                 " (reader returns at most %d bytes per Read)" % o[3] if len(o) > 3 and o[3] else "")
+        if o[0] == "P" and sl:
+            return "PrepareSnapshot r%d -> context #%d" % (o[1], sl)
+        if o[0] == "V" and sl:
+            return "SaveSnapshot r%d context #%d -> snapshot #%d" % (o[1], sl, sl)
+        if o[0] == "H" and len(o) > 2:
+            return "GetHash r%d x %d" % (o[1], o[2])
         return {"S": "Sync", "P": "PrepareSnapshot", "V": "SaveSnapshot", "O": "Close+Open", "H": "GetHash",
                 "D": "GetHash+Lookup(all keys)"}[o[0]] + " r%d" % o[1]
 
@@ -223,8 +257,9 @@ class Builder:
         self.rng, self.kind, self.nrep, self.keys, self.vals, self.origin = rng, kind, nrep, keys, vals, origin
         self.log = []            # (idx, k, v, cmd)
         self.pos = [0] * nrep    # entries of the log applied
-        self.ctx = [None] * nrep  # log position captured by the pending context
-        self.snap = [None] * nrep
+        self.ctx = [dict() for _ in range(nrep)]   # context slot -> log position captured by the outstanding context
+        self.snap = [dict() for _ in range(nrep)]  # image slot -> log position of the image
+        self.raw = False
         self.ops = []
         self.next_idx = 0
 
@@ -252,36 +287,41 @@ class Builder:
         while self.pos[r] < len(self.log):
             self.update(r, min(batch, len(self.log) - self.pos[r]))
 
-    def op(self, name, r, x=None):
+    def op(self, name, r, x=None, slot=0, n=None):
+        """slot: context slot (P, V) / image slot (V, R); several contexts of one replica may be outstanding.
+        n: number of GetHash calls of an H op"""
         if name == "P":
-            if self.kind == "kv":
+            if self.kind == "kv" or slot in self.ctx[r]:
                 return False
-            self.ctx[r] = self.pos[r]
+            self.ctx[r][slot] = self.pos[r]
         elif name == "V":
             if self.kind == "kv":
-                self.snap[r] = self.pos[r]
+                self.snap[r][slot] = self.pos[r]
             else:
-                if self.ctx[r] is None:
+                if slot not in self.ctx[r]:
                     return False
-                self.snap[r] = self.ctx[r]
-                self.ctx[r] = None
+                self.snap[r][slot] = self.ctx[r].pop(slot)
         elif name == "R":
-            if self.snap[x] is None or self.ctx[r] is not None:
+            if slot not in self.snap[x] or self.ctx[r]:
                 return False
-            if self.snap[x] < self.pos[r]:
+            if self.snap[x][slot] < self.pos[r]:
                 return False          # older snapshot: DiskKVTest panics by design; raft never does this
-            self.pos[r] = self.snap[x]
+            self.pos[r] = self.snap[x][slot]
             # the io.Reader handed to RecoverFromSnapshot may return short reads: unlimited / boundary sized / tiny chunks
-            self.ops.append(("R", r, x, self.rng.choice(READ_CHUNKS)))
+            self.ops.append(("R", r, x, self.rng.choice(READ_CHUNKS)) + ((slot,) if slot else ()))
             return True
         elif name == "O":
-            if self.kind != "disk" or self.ctx[r] is not None:
+            if self.kind != "disk" or self.ctx[r]:
                 return False
         elif name == "S":
             if self.kind != "disk":
                 return False
         if name == "L":
             self.ops.append(("L", r, x))
+        elif name == "H" and n:
+            self.ops.append(("H", r, n))
+        elif name in ("P", "V") and slot:
+            self.ops.append((name, r, slot))
         else:
             self.ops.append((name, r))
         return True
@@ -301,7 +341,7 @@ class Builder:
 
     def case(self, extra_keys=(), expect_panic=False):
         keys = list(dict.fromkeys(list(self.keys) + list(extra_keys) + PROBE_KEYS))
-        return Case(self.kind, self.nrep, keys, self.ops, self.origin, expect_panic)
+        return Case(self.kind, self.nrep, keys, self.ops, self.origin, expect_panic, raw=self.raw)
 
 
 def directed(rng, kind, binary):
@@ -396,9 +436,11 @@ def panic_cases(rng, kind):
     return out
 
 
-def random_case(rng, kind, binary, nops, big=(), conc=0.0):
+def random_case(rng, kind, binary, nops, big=(), conc=0.0, nslots=1, raw=False):
     """big: long strings added to the value (and, the first one, key) alphabet; conc: probability that an operation of a
-    ConcurrentKVTest / DiskKVTest replica runs concurrently with lookup goroutines"""
+    ConcurrentKVTest / DiskKVTest replica runs concurrently with lookup goroutines; nslots > 1: that many context / image
+    slots per replica (several outstanding contexts, saved and installed in any order); raw: DiskKVTest as NewDiskKVTest
+    returns it, with repeated hash reads"""
     keys = list(KEYS_U) + (KEYS_B if binary else [])
     vals = list(VALS_U) + (VALS_B if binary else [])
     rng.shuffle(keys); rng.shuffle(vals)
@@ -411,13 +453,27 @@ def random_case(rng, kind, binary, nops, big=(), conc=0.0):
         vals += list(big)
         if rng.random() < 0.3:
             keys.append(big[0])
-    nrep = rng.choice([1, 2, 2, 3])
-    tag = ("bin" if binary else "utf8") + (":big" if big else "") + (":conc" if conc else "")
+    nrep = rng.choice([1, 2, 2, 3]) if nslots == 1 else rng.choice([2, 3, 4])
+    tag = ("bin" if binary else "utf8") + (":big" if big else "") + (":conc" if conc else "") + (":slots" if nslots > 1 else "") + (":raw" if raw else "")
     b = Builder(rng, kind, nrep, keys, vals, "random:%s" % tag)
+    b.raw = raw
     names = ["U"] * 8 + ["L"] * 2 + ["S"] * 2 + ["P"] * 3 + ["V"] * 3 + ["R"] * 3 + ["O"] * 2 + ["H"] + ["D"] * 4
+    if nslots > 1:
+        names += ["P"] * 3 + ["V"] * 2 + ["R"] * 2
     for _ in range(nops):
         nm = rng.choice(names)
         r = rng.randrange(nrep)
+        if nslots > 1 and nm in ("P", "V", "R"):
+            sl = rng.randrange(nslots)
+            if nm == "R":
+                if b.op("R", r, rng.randrange(nrep), slot=sl):
+                    b.op("D", r)
+            elif b.op(nm, r, slot=sl) and nm == "V" and rng.random() < 0.4:
+                b.op("D", r)
+            continue
+        if raw and nm == "H":
+            b.op("H", r, n=rng.choice([20, 50, 200]))
+            continue
         cc = kind != "kv" and rng.random() < conc
         ck = rng.sample(keys, min(len(keys), rng.randrange(1, 4))) if cc else None
         if nm == "U":
@@ -560,6 +616,84 @@ def count_cases(rng, kind, quick):
     return out
 
 
+# ------------------------------------------------------------------ several outstanding snapshot contexts / images per machine
+def multi_ctx_cases(rng, kind, quick):
+    """contexts of ONE machine prepared at the same or at different points, saved in any order with updates in between;
+    every image installed into a fresh replica (and into a used, older one) and dumped: the monitors compare it with the
+    state at ITS prepare point.  KVTest has no PrepareSnapshot: several images saved at different points."""
+    out = []
+    keys = [b"a", b"b", b"c", b""]
+    vals = [b"v", b"w", b"", b"\xc3\xa9", b"x\"y"]
+    # plan: sequence over P<s> (prepare context s), V<s> (save it), U (update of the source), in all shapes with 2 and 3 contexts
+    plans = []
+    for first, second in ((1, 2), (2, 1)):
+        for u_pp in (0, 1):              # updates between the two prepares
+            for u_ps in (0, 1):          # updates between the last prepare and the first save
+                for u_ss in (0, 1, 2):   # updates between the two saves
+                    plans.append(["P1"] + ["U"] * u_pp + ["P2"] + ["U"] * u_ps + ["V%d" % first] + ["U"] * u_ss + ["V%d" % second])
+    plans += [["P1", "P2", "P3", "V2", "U", "V3", "U", "V1"], ["P1", "P2", "V1", "P1", "U", "V2", "U", "V1"],
+              ["P1", "U", "P2", "U", "P3", "V3", "V1", "U", "V2"], ["P1", "P2", "V2", "U", "P2", "V1", "U", "V2"],
+              ["P0", "P1", "V0", "U", "V1"], ["P1", "P0", "V1", "U", "U", "V0"]]
+    for plan in plans:
+        slots = sorted({int(x[1:]) for x in plan if x[0] == "V"})
+        b = Builder(rng, kind, 2 + len(slots), keys, vals, "multi-ctx:" + "".join(plan))
+        b.update(0, rng.choice([1, 2, 3])); b.op("D", 0)
+        b.update(1, 1)                  # replica 1: used, one entry behind everything
+        for x in plan:
+            if x == "U":
+                b.update(0, rng.choice([1, 1, 2]), [(rng.choice(keys), rng.choice(vals)) for _ in range(2)])
+                if rng.random() < 0.5:
+                    b.op("D", 0)
+            elif x[0] == "P":
+                if kind == "kv":
+                    continue
+                b.op("P", 0, slot=int(x[1:])); b.op("D", 0)
+            else:
+                b.op("V", 0, slot=int(x[1:]))
+        order = list(slots)
+        rng.shuffle(order)
+        for j, sl in enumerate(order):   # every image into a fresh replica
+            b.op("R", 2 + j, 0, slot=sl); b.op("D", 2 + j)
+        for sl in sorted(slots, key=lambda q: b.snap[0][q]):   # and, oldest first, into the used replica
+            if b.op("R", 1, 0, slot=sl):
+                b.op("D", 1)
+        b.op("D", 0)
+        b.catch_up(2, 8); b.op("D", 2)
+        out.append(b.case())
+    for j in range(20 if quick else 600):
+        out.append(random_case(rng, kind, binary=(j % 4 == 3), nops=rng.choice([15, 30, 45]), nslots=rng.choice([2, 3])))
+    return out
+
+
+# ------------------------------------------------------------------ DiskKVTest exactly as NewDiskKVTest returns it
+def raw_cases(rng, quick):
+    """the harness-only knob that switches the injected snapshot abort off is NOT set: a hash read (GetHash, thousands of
+    them) must neither fail nor vary whatever the number of records; SaveSnapshot may answer ErrSnapshotAborted (the
+    executor retries with a spare context of the same point) and the image that is finally produced must be exact"""
+    out = []
+    kind = "disk"
+    nread = 1500 if quick else 20000
+    for nrec in [0, 1, 2, 3, 4, 5, 8, 20]:
+        ks = [b"k%02d" % i for i in range(nrec)]
+        b = Builder(rng, kind, 2, ks[:6] + [b"n"], VALS_U, "raw:records=%d" % nrec)
+        b.raw = True
+        if nrec:
+            b.update(0, nrec, [(kk, rng.choice([b"v", b"w", b"\xc3\xa9"])) for kk in ks])
+        b.op("D", 0); b.op("H", 0, n=nread)
+        for _ in range(3 if quick else 20):
+            b.op("P", 0); b.op("H", 0, n=50); b.op("V", 0); b.op("H", 0, n=50)
+        b.op("R", 1, 0); b.op("D", 1); b.op("H", 1, n=nread // 3)
+        b.update(0, 1, [(b"n", b"x")]); b.update(1, 1); b.op("S", 1); b.op("O", 1); b.op("D", 1); b.op("H", 1, n=nread // 3); b.op("D", 0)
+        out.append(b.case())
+    for binary in (False, True):
+        for c in directed(rng, kind, binary):
+            c.raw, c.origin = True, c.origin.replace("directed", "raw-directed")
+            out.append(c)
+    for j in range(40 if quick else 1200):
+        out.append(random_case(rng, kind, binary=(j % 3 == 2), nops=rng.choice([10, 20, 30, 45]), raw=True, nslots=rng.choice([1, 1, 2])))
+    return out
+
+
 # ------------------------------------------------------------------ the concurrency dimension: Lookup || every other call
 def conc_cases(rng, kind, quick):
     """ConcurrentKVTest / DiskKVTest only.  Values are valid UTF-8 (the JSON finding is not the subject here)."""
@@ -694,8 +828,8 @@ def monitor_case(c, obs, mode, hash_by_hist, fails, stats):
     exact = [dict() for _ in range(nrep)]
     pred = [dict() for _ in range(nrep)]
     taint = [False] * nrep
-    ctx = [None] * nrep           # (hist, exact, pred, taint) at prepare
-    snap = [None] * nrep
+    ctx = [dict() for _ in range(nrep)]    # context slot -> (hist, exact, pred, taint) at ITS prepare point
+    snap = [dict() for _ in range(nrep)]   # image slot -> the same, of the context the image was saved from
     last_hash = [None] * nrep     # hash seen since the last state-changing op
     after_recover = [False] * nrep
 
@@ -765,9 +899,9 @@ def monitor_case(c, obs, mode, hash_by_hist, fails, stats):
                     for j, k in enumerate(co[3]):
                         if e[1] == k:
                             allowed[j].add(e[2])
-            elif o[0] == "R" and snap[o[2]] is not None:
+            elif o[0] == "R" and slot_of(o) in snap[o[2]]:
                 for j, k in enumerate(co[3]):
-                    allowed[j].add(snap[o[2]][1].get(k, b""))
+                    allowed[j].add(snap[o[2]][slot_of(o)][1].get(k, b""))
             err_ok = o[0] in ("R", "O")
             for j, k in enumerate(co[3]):
                 if kind == "disk" and k == IDX_KEY:
@@ -799,9 +933,21 @@ def monitor_case(c, obs, mode, hash_by_hist, fails, stats):
                                                                                    "?" if got is None else pyx(got), sorted(allowed[j])), i)
                 if len(answers[j] - {"err"}) > 1:
                     stats["conc_both_states_seen"] = stats.get("conc_both_states_seen", 0) + 1
+        if len(f) >= 2 and o[0] == "V" and f[1] == "aborted" and c.raw:
+            # every spare context of this save drew the injected abort (1 in 125000): legitimate, the rest of the script is void
+            stats["raw_save_gave_up"] = stats.get("raw_save_gave_up", 0) + 1
+            return i
+        if len(f) >= 2 and o[0] == "H" and f[1] == "vary":
+            fail("hash-nonupdate", "%s replica %d: %s answered two different hashes with nothing in between: %s"
+                 % (KIND_NAME[kind], r, Case._op_text(o), l[:120]), i)
+            return i
         if len(f) < 2 or f[1] in ("panic", "err", "dead", "na", "noctx", "nosnap", "badreplica", "unknown"):
             if c.expect_panic and i == len(c.ops) - 1 and f[1] == "panic":
                 stats["expected_panics"] = stats.get("expected_panics", 0) + 1
+            elif o[0] in ("H", "D") and len(f) >= 2 and f[1] == "err":
+                fail("hash-nonupdate", "%s replica %d (%s): %s FAILED: %r - a hash read must never fail, the hash is a function of the "
+                     "applied updates only" % (KIND_NAME[kind], r, "machine as NewDiskKVTest returns it" if c.raw else "harness setup",
+                                               Case._op_text(o), l[:120]), i)
             else:
                 fail("no-panic", "%s replica %d: operation %s of a well-formed script answered %r" % (KIND_NAME[kind], r, Case._op_text(o), l[:160]), i)
             return i
@@ -815,12 +961,15 @@ def monitor_case(c, obs, mode, hash_by_hist, fails, stats):
         elif o[0] == "L":
             check_lookup(r, o[2], unhx(f[1]), i)
         elif o[0] == "P":
-            ctx[r] = (hist[r], dict(exact[r]), dict(pred[r]), taint[r])
+            ctx[r][slot_of(o)] = (hist[r], dict(exact[r]), dict(pred[r]), taint[r])
         elif o[0] == "V":
-            snap[r] = (hist[r], dict(exact[r]), dict(pred[r]), taint[r]) if kind == "kv" else ctx[r]
-            ctx[r] = None
+            if len(f) > 2:
+                stats["raw_save_aborted_and_retried"] = stats.get("raw_save_aborted_and_retried", 0) + int(f[2])
+            snap[r][slot_of(o)] = (hist[r], dict(exact[r]), dict(pred[r]), taint[r]) if kind == "kv" else ctx[r].pop(slot_of(o))
+            if ctx[r]:
+                stats["saves_with_other_contexts_outstanding"] = stats.get("saves_with_other_contexts_outstanding", 0) + 1
         elif o[0] == "R":
-            sh, se, sp, st = snap[o[2]]
+            sh, se, sp, st = snap[o[2]][slot_of(o)]
             hist[r], exact[r], taint[r] = sh, dict(se), st
             if json_kind:
                 # the known coercion: pairs in key order, strings coerced, later duplicates win
@@ -834,13 +983,15 @@ def monitor_case(c, obs, mode, hash_by_hist, fails, stats):
                 pred[r] = dict(sp)
             last_hash[r] = None
             after_recover[r] = True
-            ctx[r] = None
+            ctx[r] = {}
         elif o[0] == "O":
             want = hist[r][-1][0] if hist[r] else 0
             if int(f[1]) != want:
                 fail("open-index", "DiskKVTest replica %d: Open after restart returned index %s, last applied entry is %d" % (r, f[1], want), i)
-            ctx[r] = None
+            ctx[r] = {}
         elif o[0] == "H":
+            if len(o) > 2:
+                stats["hash_reads_repeated"] = stats.get("hash_reads_repeated", 0) + o[2]
             check_hash(r, f[1], i)
         elif o[0] == "D":
             check_hash(r, f[1], i)
@@ -856,6 +1007,8 @@ def monitor_case(c, obs, mode, hash_by_hist, fails, stats):
 def coq_case(c, obs, smax, stop):
     """expand the case into KVSM.op terms and the observation list (hash values -> first-occurrence class numbers)"""
     ops, xs, cls = [], [], {}
+    slots = c.uses_slots()        # several outstanding contexts / images: the slot system of KVSM.v ([sop], KVSMRun.scase)
+    pfx = "S" if slots else "O"
 
     def cl(h):
         if h not in cls:
@@ -866,17 +1019,21 @@ def coq_case(c, obs, smax, stop):
             o, l = o[4], l.partition(" ; ")[2]
         f = l.split()
         r = o[1]
-        bad = len(f) < 2 or f[1] in ("panic", "err", "dead", "na", "noctx", "nosnap", "badreplica", "unknown")
+        bad = len(f) < 2 or f[1] in ("panic", "err", "dead", "na", "noctx", "nosnap", "badreplica", "unknown", "vary")
+        if len(f) >= 2 and o[0] == "V" and f[1] == "aborted":
+            break                 # the save gave up legitimately (raw DiskKVTest): the script ends here
         if o[0] == "U":
-            ops.append("OUpdate %d [%s]" % (r, "; ".join("(%d, %s)" % (e[0], cbytes(e[3])) for e in o[2])))
+            ops.append("%sUpdate %d [%s]" % (pfx, r, "; ".join("(%d, %s)" % (e[0], cbytes(e[3])) for e in o[2])))
         elif o[0] == "L":
-            ops.append("OLookup %d %s" % (r, cbytes(o[2])))
+            ops.append("%sLookup %d %s" % (pfx, r, cbytes(o[2])))
         elif o[0] == "R":
-            ops.append("ORecover %d %d" % (r, o[2]))
+            ops.append("%sRecover %d %d" % (pfx, r, o[2]) + (" %d" % slot_of(o) if slots else ""))
         elif o[0] == "D":
-            ops.append("OHash %d" % r)
+            ops.append("%sHash %d" % (pfx, r))
+        elif o[0] in ("P", "V"):
+            ops.append(pfx + {"P": "Prepare", "V": "Save"}[o[0]] + " %d" % r + (" %d" % slot_of(o) if slots else ""))
         else:
-            ops.append({"S": "OSync", "P": "OPrepare", "V": "OSave", "O": "OReopen", "H": "OHash"}[o[0]] + " %d" % r)
+            ops.append(pfx + {"S": "Sync", "O": "Reopen", "H": "Hash"}[o[0]] + " %d" % r)
         if bad:
             xs.append("XPanic")
             break
@@ -891,9 +1048,9 @@ def coq_case(c, obs, smax, stop):
         elif o[0] == "D":
             xs.append(cl(f[1]))
             for key, hv in zip(c.keys, f[2:]):
-                ops.append("OLookup %d %s" % (r, cbytes(key)))
+                ops.append("%sLookup %d %s" % (pfx, r, cbytes(key)))
                 xs.append("XVal %s" % cbytes(unhx(hv)) if hv != "err" else "XPanic")
-    return "kcase %d %d\n [%s]\n [%s]" % (KIND_ID[c.kind], smax, ";\n  ".join(ops), "; ".join(xs))
+    return "%s %d %d\n [%s]\n [%s]" % ("scase" if slots else "kcase", KIND_ID[c.kind], smax, ";\n  ".join(ops), "; ".join(xs))
 
 
 def run_model(ck, items, prefix):
@@ -937,6 +1094,12 @@ def run(ck):
         "CONCURRENCY (ConcurrentKVTest, DiskKVTest): 1..3 goroutines loop Lookup on a replica while it runs RecoverFromSnapshot (lagging "
         "replica restored again and again), Close+Open, Update (key rewritten inside the batch), Sync, PrepareSnapshot, SaveSnapshot, and "
         "PRNG scripts with a third of the ops concurrent; own child process, a process crash is attributed to the cases in flight. "
+        "SEVERAL OUTSTANDING CONTEXTS: 2-3 contexts / images per machine (slots), prepared at the same or different points, saved in "
+        "either order with 0..2 updates between prepares, prepare and save, and the saves (all 24 shapes + 6 with 3 contexts / slot "
+        "reuse), every image installed into a fresh replica and, oldest first, into a used one; PRNG scripts over 2..4 replicas with "
+        "2-3 slots. RAW DiskKVTest (disableSnapshotAbort not set): stores of 0,1,2,3,4,5,8,20 records with 1500 (thorough 20000) "
+        "consecutive GetHash calls, snapshots with retry on the injected abort, hand-over, restart; all directed disk scripts and PRNG "
+        "scripts again in that mode. "
         "Non-trivial = contains an update; distinct by md5 of the executor input.")
     t_ph = time.time()
     proofs_ok = ck.proofs(["theories/KVSMRun.vo"])
@@ -966,6 +1129,8 @@ def run(ck):
                 bigs.append(big_string(rng, n if what == "val" else vlen_for_record(b"a", n), kind == "disk" and j % 2 == 1))
             extra[kind].append(random_case(rng, kind, False, rng.choice([10, 20, 30]), big=bigs))
         concs[kind] += conc_cases(rng, kind, quick)
+        extra[kind] += multi_ctx_cases(rng, kind, quick)
+    extra["disk"] += raw_cases(rng, quick)
     cid = 0
     for grp in (cases, extra, concs):
         for kind in KIND_ID:
@@ -1031,6 +1196,8 @@ def run(ck):
     allc = [c for k in KIND_ID for c in extra[k]]
     ck.cov["longest_string_bytes"] = max(len(e[2]) for c in allc for o in c.ops if o[0] == "U" for e in o[2])
     ck.cov["most_records_in_a_snapshot"] = max(sum(len(o[2]) for o in c.ops if o[0] == "U") for c in allc if c.origin.startswith("count"))
+    ck.cov["cases_several_outstanding_contexts"] = {k: sum(1 for c in extra[k] if c.uses_slots()) for k in KIND_ID}
+    ck.cov["cases_raw_diskkv"] = sum(1 for c in extra["disk"] if c.raw)
     ck.cov["concurrent_restores"] = sum(1 for k in KIND_ID for c in concs[k] for o in c.ops if o[0] == "C" and o[4][0] == "R")
     known = [f for f in fails if f.known is True]
     real = [f for f in fails if not f.known]
@@ -1113,7 +1280,7 @@ def run(ck):
         if not ck.violations:
             term, (c, mode) = min(mism, key=lambda m: len(m[1][0].ops))
             obs = [rs for (cs, rs, m) in runs if m == mode and c.cid in rs][0][c.cid]
-            rc, out = ck.coq_eval("c15diag", "From Drummer.Model Require Import Base KVCodec KVSM KVSMRun.\nEval vm_compute in (%s)." % term.replace("kcase", "kdiff", 1))
+            rc, out = ck.coq_eval("c15diag", "From Drummer.Model Require Import Base KVCodec KVSM KVSMRun.\nEval vm_compute in (%s)." % term.replace("kcase", "kdiff", 1).replace("scase", "sdiff", 1))
             ck.violation("model and implementation disagree on %d kvsm cases (lookups / hash equality pattern / Open index) but no property monitor failed; "
                          "smallest: %s case %d (%s), mode %s" % (len(mism), KIND_NAME[c.kind], c.cid, c.origin, mode),
                          {"kind": "correspondence", "engine": "kvsm", "n_disagreements": len(mism), "case": c.replay(), "observed": obs,
